@@ -457,6 +457,12 @@ func (fv *FuncVerifier) checkInvariants(e *Enc, from, h *ssa.BasicBlock, edgeCon
 	e.assume(fmt.Sprintf("(= %s (and %s %s))", reachName, saveReach, edgeCond))
 	saveBlock, saveInstr := e.curBlock, e.curInstr
 	e.curInstr = from.Instrs[len(from.Instrs)-1]
+	for k := len(from.Instrs) - 1; k >= 0; k-- {
+		if from.Instrs[k].Pos() != token.NoPos {
+			e.curInstr = from.Instrs[k]
+			break
+		}
+	}
 	e.reach[from] = reachName
 	defer func() { e.reach[from] = saveReach; e.curBlock, e.curInstr = saveBlock, saveInstr }()
 	e.curBlock = from
